@@ -177,6 +177,10 @@ def do_replay(prop: str, path: str) -> int:
         print("outcome recorded:", case.get("outcome"), "at step", case.get("step"))
         bytepipe.replay(case)
         return 0
+    if "interference" in case:
+        from .props import codec_interference
+        codec_interference.replay(case)
+        return 0
     print(json.dumps(case, indent=1, default=str)[:4000])
     print("(this engine's cases are replayed by re-running the check: the corpus and the seed reproduce them)")
     return 0
